@@ -20,8 +20,8 @@ Definition full_scope (extra : list string) (l : list fcase) : list string :=
 
 (* one decoration (a function, or the methods of a class in class-dict order):
      outcome of the whole decoration, -1,
-     per function: applies, consistent (spec), sig_ok, scope_ok, doc_typed, doc_wf, no "typing." text,
-                   outcome of decorating that function alone, -2                                  *)
+     per function: applies, consistent (spec), sig_ok, scope_ok, ctx_covers, doc_typed, doc_evaluable,
+                   no "typing." text, doc_wf, outcome of decorating that function alone, -2          *)
 Definition eval_case (extra : list string) (l : list fcase) : list Z :=
   let scope := full_scope extra l in
   enc (decorate_all docstring_prog l) ++ [-1] ++
@@ -30,38 +30,27 @@ Definition eval_case (extra : list string) (l : list fcase) : list Z :=
       b2z (consistentb scope (f_ann fc) (f_doc fc));
       b2z (sig_ok (f_ann fc));
       b2z (scope_ok scope (f_ann fc));
+      b2z (ctx_covers [] (f_ann fc));
       b2z (doc_typed (f_doc fc));
-      b2z (doc_wf (f_doc fc));
-      b2z (doc_no_typing_dot (f_doc fc)) ]
+      b2z (doc_evaluable scope (f_doc fc));
+      b2z (doc_no_typing_dot (f_doc fc));
+      b2z (doc_wf (f_doc fc)) ]
     ++ enc (decorate docstring_prog fc) ++ [-2]) l.
 
 (* ---- the typing model alone: eval(text, globals(), context) and == ------------------------------- *)
 
-(* syntactic identity of two objects (members of a Union in the same order) *)
-Fixpoint ty_same (a b : ty) {struct a} : bool :=
+(* The model value and the reified real value are the same object up to what `==` cannot see: typing
+   caches Union[...] / X[...] by == of the arguments (functools.lru_cache), so the order of the members of
+   a typing.Union, and whether a union nested in a typing generic is spelled X | Y or Union[X, Y], depend
+   on what was evaluated earlier in the process.  The head constructor has to agree.                  *)
+Definition same_head (a b : ty) : bool :=
   match a, b with
-  | TNone, TNone => true
-  | TEllipsis, TEllipsis => true
-  | TAny, TAny => true
-  | TCls n, TCls m => String.eqb n m
-  | TBare n, TBare m => String.eqb n m
-  | TUnion a1, TUnion a2 | TTup a1, TTup a2 | TLst a1, TLst a2 =>
-      (fix eql (l1 l2 : list ty) {struct l1} : bool :=
-         match l1, l2 with
-         | [], [] => true
-         | x :: r, y :: s => ty_same x y && eql r s
-         | _, _ => false
-         end) a1 a2
-  | TGen g1 a1, TGen g2 a2 =>
-      gname_eqb g1 g2 &&
-      (fix eql (l1 l2 : list ty) {struct l1} : bool :=
-         match l1, l2 with
-         | [], [] => true
-         | x :: r, y :: s => ty_same x y && eql r s
-         | _, _ => false
-         end) a1 a2
+  | TNone, TNone | TEllipsis, TEllipsis | TAny, TAny | TCls _, TCls _ | TBare _, TBare _
+  | TUnion _, TUnion _ | TPipe _, TPipe _ | TGen _ _, TGen _ _ | TTup _, TTup _ | TLst _, TLst _ => true
   | _, _ => false
   end.
+
+Definition ty_same (a b : ty) : bool := same_head a b && ty_eqb a b && ty_eqb b a.
 
 Definition same_as (o : outcome ty) (real : option ty) : Z :=
   match o, real with
